@@ -15,6 +15,7 @@ CONSTANTS
   RetireById = TRUE
   RelOnRefusal = TRUE
   CtxSelect = TRUE
+  CapRegroup = TRUE
   SearchBudget = 2500000
 SPECIFICATION TraceSpec
 INVARIANTS TypeOK OwnCopy OwnId_ OwnQuestion CtxPrivate ErrorsFromOwnFlight WaitersAttached ForgottenWhenDone
